@@ -7,6 +7,7 @@ EXTRA = {
     "R2-C02-1": ["C13"], "R2-C05-1": ["C14"], "R2-C13-1": ["C05"], "R2-C04-1": ["C05", "C14"], "R2-C04-2": ["C18"], "R2-C07-2": ["C08"], "R2-C01-1": ["C02"], "R2-C02-2": ["C08"], "R2-C03-1": ["C15"],
     "R3-C01-1": ["C15"], "R3-C01-2": ["C06"], "R3-C02-2": ["C13"], "R3-C03-1": ["C01"], "R3-C03-2": ["C15"], "R3-C05-1": ["C04"], "R3-C05-2": ["C13"], "R3-C06-1": ["C01"], "R3-C09-1": ["C01"], "R3-C09-2": ["C01"],
     "R3-C13-2": ["C15"], "R3-C15-2": ["C03"], "R3-C18-1": ["C04"], "R3-C19-1": ["C05"], "R3-C07-2": ["C08"],  # additional checks that share the engine with the seed's own property
+    "R4-C02-1": ["C01"], "R4-C01-1": ["C02"], "R4-C08-1": ["C07"], "R4-C14-1": ["C15"],
     "C01-2": ["C02"], "C03-2": ["C13", "C15"], "C05-1": ["C14"], "C05-2": ["C14"], "C14-2": ["C05"], "C02-1": ["C01"], "C12-1": ["C17"],
 }
 SELF = {  # own mutations: file -> checks
@@ -47,13 +48,13 @@ def run(patch, check):
     return "inconclusive(rc=%d)" % p.returncode
 only = sys.argv[1:]
 rows = []
-for d in sorted(glob.glob(VERIF + "/seeded/C*-*") + glob.glob(VERIF + "/seeded/R2-C*-*") + glob.glob(VERIF + "/seeded/R3-C*-*")):
+for d in sorted(glob.glob(VERIF + "/seeded/C*-*") + glob.glob(VERIF + "/seeded/R2-C*-*") + glob.glob(VERIF + "/seeded/R3-C*-*") + glob.glob(VERIF + "/seeded/R4-C*-*")):
     name = os.path.basename(d)
     if only and name not in only:
         continue
     meta_p = os.path.join(d, "meta.json")
     meta = json.load(open(meta_p)) if os.path.exists(meta_p) else {}
-    prop = name.replace("R2-", "").replace("R3-", "").split("-")[0]
+    prop = name.replace("R2-", "").replace("R3-", "").replace("R4-", "").split("-")[0]
     det = {}
     for chk in [prop] + EXTRA.get(name, []):
         det[chk] = run(os.path.join(d, "patch.diff"), chk)
